@@ -182,6 +182,17 @@ Fixpoint cunflatten_from (ms : list codec) (sizeRef : list nat) (flat : list A) 
 Definition cunflatten (ms : list codec) (sizeRef : list nat) (flat : list A) (Xref : list St) :=
   cunflatten_from ms sizeRef flat Xref 0.
 
+(* what Coupler.unflattenX hands to each sub-model's own unflattenX: the slice X_flat[ind:ind+s]
+   (a sub-model whose instructions reshape what they are given depends on receiving exactly this) *)
+Fixpoint cunflatten_args_from (ms : list codec) (sizeRef : list nat) (flat : list A) (Xref : list St)
+         (ind : nat) : list (list A) :=
+  match ms, sizeRef, Xref with
+  | _ :: ms', s :: sr', _ :: xr' => slice flat ind s :: cunflatten_args_from ms' sr' flat xr' (ind + s)
+  | _, _, _ => []
+  end.
+Definition cunflatten_args (ms : list codec) (sizeRef : list nat) (flat : list A) (Xref : list St) :=
+  cunflatten_args_from ms sizeRef flat Xref 0.
+
 (* ---- the order in which DESolver calls flattenX / unflattenX during one iteration ------------
    Solver.py:211-213, _getdXdt (132-140), _updateX (157-159), Iterators.py.
    EvF x : flattenX called on x (the state X0 of this iteration, or a derivative the model returned)
@@ -239,6 +250,18 @@ Arguments EvU {St} r.
 
 (* the default codec of GenericModel *)
 Definition default_codec (A : Type) : codec A (state A) := mkCodec A (state A) (@flatten A) (@unflatten A).
+
+(* overridden instructions of the kind shipped with kawin (DiffusionModel.unflattenX reshapes the flat
+   array it is given to the shape of the reference): succeeds only on exactly as many values as the
+   reference holds *)
+Definition strict_codec (A : Type) : codec A (state A) :=
+  mkCodec A (state A) (@flatten A)
+    (fun flat ref => if Nat.eqb (length flat) (size A ref) then unflatten A flat ref else None).
+(* instructions whose result shape follows from what they are given (np.reshape(X_flat, (-1, c))):
+   every value handed over ends up in the state; the row count is length/c *)
+Definition greedy_codec (A : Type) (c : nat) : codec A (state A) :=
+  mkCodec A (state A) (@flatten A)
+    (fun flat ref => if Nat.eqb (length flat mod c) 0 then Some [Arr flat] else None).
 
 (* ---- flat-array arithmetic of the built-in iterators (shapes only) ---------------------------
    x + flatten(d)*dt, dxdtsum += 2*k, dxdtsum/6: numpy elementwise operations on 1-D arrays of equal
